@@ -36,7 +36,7 @@ PROPERTIES = {
         assumptions=["acceptance/refusal of concrete values by the emitted annotations is pydantic's (assumed contract)"],
     ),
     "C05": dict(
-        modules=["contracts.c05_result_fields", "contracts.c01_results", "contracts.c04_modules", "contracts.c01_inline", "contracts.c01_subtype", "contracts.c01_resolve", "contracts.c01_interface"],
+        modules=["contracts.c05_result_fields", "contracts.c01_results", "contracts.c04_modules", "contracts.c01_inline", "contracts.c01_subtype", "contracts.c01_resolve", "contracts.c01_interface", "contracts.c01_typedef"],
         bounded=[_bounded.lazy("contracts.e2e_results", "bounded_results"), _bounded.lazy("contracts.e2e_fuzz", "bounded_generated_operations")],
         explanation="result field type translator against the image spec by structural induction (non-abstract positions), "
                     "directive handling, typename literal",
@@ -96,7 +96,7 @@ PROPERTIES = {
         assumptions=["isort/black determinism; equality across two processes beyond order-independence is outside one call's contract"],
     ),
     "C08": dict(
-        modules=["contracts.c08_fragments", "contracts.c10_order", "contracts.c01_inline", "contracts.c01_subtype", "contracts.c01_resolve", "contracts.c01_interface", "contracts.c08_order", "contracts.c08_mixins"],
+        modules=["contracts.c08_fragments", "contracts.c10_order", "contracts.c01_inline", "contracts.c01_subtype", "contracts.c01_resolve", "contracts.c01_interface", "contracts.c08_order", "contracts.c08_mixins", "contracts.c01_typedef"],
         bounded=[_bounded.lazy("contracts.c08_fragments", "bounded_fragment_order"), _bounded.lazy("contracts.e2e_fragments", "bounded_scenarios"),
                  _bounded.lazy("contracts.e2e_plugins", "bounded_plugins"), _bounded.lazy("contracts.e2e_results", "bounded_results"),
                  _bounded.lazy("contracts.e2e_fuzz", "bounded_generated_operations")],
@@ -145,7 +145,7 @@ PROPERTIES = {
         assumptions=["embedding of the text in Python source (splitlines, ast.unparse, regex rewrite, isort, black) is outside the solvers' fragment: bounded stand-in only"],
     ),
     "C01": dict(
-        modules=["contracts.c01_results", "contracts.c05_result_fields", "contracts.c04_modules", "contracts.c01_inline", "contracts.c01_subtype", "contracts.c01_resolve", "contracts.c01_interface"],
+        modules=["contracts.c01_results", "contracts.c05_result_fields", "contracts.c04_modules", "contracts.c01_inline", "contracts.c01_subtype", "contracts.c01_resolve", "contracts.c01_interface", "contracts.c01_typedef"],
         bounded=[_bounded.lazy("contracts.e2e_results", "bounded_results"), _bounded.lazy("contracts.e2e_pruning", "bounded_pruned_packages"),
                  _bounded.lazy("contracts.e2e_fuzz", "bounded_generated_operations")],
         explanation="union / non-abstract / interface translators, field implementation and the selection-set resolution (fields and bases of a class, classes of an interface field) under contract; acceptance, typed instances and round trip by the reference-executor stand-in",
